@@ -1,0 +1,11 @@
+//go:build verif
+
+package document
+
+// VerifResetGlobals resets the process-wide note and numbering registries so that
+// verification cases executed in one process start from the state of a fresh process.
+// Compiled only with the "verif" build tag; it is not part of the library's API.
+func VerifResetGlobals() {
+	globalFootnoteManager = nil
+	globalNumberingManager = nil
+}
